@@ -258,10 +258,90 @@ def oracle(rng, tier, seed, focus, cases):
         for key, what in judge(m):
             fails.append(Failure(key, what, {'i': m['i'], 'line': c.line, 'tag': m['tag'], 'cls': m['cls'], 'label': m['label'],
                                              'pre': m['pre'], 'key': key, 'seed': seed, 'tier': tier}, case=c))
-    return fails, {'switches': len(cases), 'reads_compared': n, 'distinct_failure_keys': sorted({f.key for f in fails})}
+    own = own_onetime_experiments()
+    fails += own
+    return fails, {'switches': len(cases), 'reads_compared': n, 'own_onetime_subclass_experiments': OWN_N[0],
+                   'distinct_failure_keys': sorted({f.key for f in fails})}
+
+
+OWN_N = [0]
+
+
+def own_onetime_experiments(only=None):
+    """user subclasses that define their OWN one-time results, re-targeted / reset / sliced after an instance of an
+    ancestor class has been through the same operation (and in the opposite order): nothing computed for the previous
+    state may survive, whatever other objects were reset before (a per-class memo of resettable names inherited from
+    an ancestor would be wrong exactly here)"""
+    import nitime.descriptors as desc
+    import nitime.analysis as na
+    import nitime.timeseries as ts
+    fails = []
+    OWN_N[0] = 0
+    rs = np.random.RandomState(5)
+    x1 = ts.TimeSeries(rs.randn(3, 128), sampling_rate=10.0)
+    x2 = ts.TimeSeries(rs.randn(3, 96) * 2 + 1, sampling_rate=20.0)
+    for base_name in ('CoherenceAnalyzer', 'SpectralAnalyzer', 'NormalizationAnalyzer', 'CorrelationAnalyzer', 'MTCoherenceAnalyzer'):
+        base = getattr(na, base_name)
+        for order in ('ancestor-first', 'subclass-first'):
+            for opn in ('set_input', 'reset'):
+                key = 'own-onetime/%s/stale-after-%s/%s' % (base_name, opn, order)
+                if only is not None and key != only:
+                    continue
+                def total(self):
+                    return float(np.sum(self.input.data)) + float(getattr(self, 'bias', 0.0))
+                Sub = type('Own' + base_name, (base,), {'total': desc.setattr_on_read(total)})
+                try:
+                    def run_ancestor():
+                        a = base(x1)
+                        a.set_input(x2) if opn == 'set_input' else a.reset()
+                    if order == 'ancestor-first':
+                        run_ancestor()
+                    s_ = Sub(x1)
+                    _ = s_.total
+                    if 'total' not in s_.__dict__:
+                        fails.append(Failure(key + '/not-memoised', 'the one-time result was not stored on first read', {'own': key, 'key': key}))
+                    if opn == 'set_input':
+                        s_.set_input(x2)
+                        want = float(np.sum(x2.data))
+                    else:
+                        s_.reset()
+                        s_.bias = 3.5
+                        want = float(np.sum(x1.data)) + 3.5
+                    got = s_.total
+                    OWN_N[0] += 1
+                    if got != want:
+                        fails.append(Failure(key, 'a user subclass of %s with its own one-time result kept the value computed before %s (%s: an ancestor instance went through %s %s): got %r, a new object gives %r' % (
+                            base_name, opn, order, opn, 'before' if order == 'ancestor-first' else 'after nothing', got, want), {'own': key, 'key': key}))
+                except Exception as e:  # noqa
+                    fails.append(Failure(key + '/raises', '%s: %r' % (key, e), {'own': key, 'key': key}))
+    # Epochs subclass with its own memoised result, sliced after a plain Epochs was sliced
+    for order in ('ancestor-first', 'subclass-first'):
+        key = 'own-onetime/Epochs/stale-after-slice/%s' % order
+        if only is not None and key != only:
+            continue
+        def midpoint(self):
+            return np.asarray(self.start) + np.asarray(self.duration) // 2
+        SubE = type('OwnEpochs', (ts.Epochs,), {'midpoint': desc.setattr_on_read(midpoint)})
+        st = np.arange(0.0, 60.0, 10.0)
+        if order == 'ancestor-first':
+            e0 = ts.Epochs(st, duration=np.full(6, 4.0))
+            _ = e0.duration
+            _ = e0[1:3].duration
+        e = SubE(st, duration=np.full(6, 4.0))
+        _ = e.midpoint
+        sl = e[2:5]
+        OWN_N[0] += 1
+        want = np.asarray(sl.start) + np.asarray(sl.stop - sl.start) // 2
+        got = np.asarray(sl.midpoint)
+        if got.shape != want.shape or not np.array_equal(got, want):
+            fails.append(Failure(key, 'a slice of an Epochs subclass kept the parent\'s memoised result (%s)' % order, {'own': key, 'key': key}))
+    return fails
 
 
 def replay(d):
+    if d.get('own'):
+        fs = own_onetime_experiments(only=d['own'])
+        return fs[0] if fs else None
     E = exps(d.get('seed', 0), d.get('tier', 'quick'))
     for i, sw in enumerate(E):
         if sw.line == d['line'] and sw.keytag == d['tag'] and sw.label == d['label'] and sw.cls == d['cls']:
